@@ -124,8 +124,11 @@ func (ch *channel) run(ctx context.Context) {
 // set from the value of mvhd.CreationTime if later or equal to 1970-01-01
 // and the start of a year.
 func (ch *channel) addInitDataAndUpdateTimescale(stream stream, init *mp4.InitSegment) error {
-	if init == nil {
+	if init == nil || init.Moov == nil {
 		return fmt.Errorf("no moov box found in init segment")
+	}
+	if init.Ftyp == nil || init.Moov.Mvhd == nil || init.Moov.Mvex == nil || init.Moov.Mvex.Trex == nil {
+		return fmt.Errorf("init segment lacks ftyp, mvhd or mvex/trex box")
 	}
 	r := &trData{
 		name:        stream.trName,
@@ -152,6 +155,9 @@ func (ch *channel) addInitDataAndUpdateTimescale(stream stream, init *mp4.InitSe
 
 	if trak.Mdia == nil || trak.Mdia.Minf == nil || trak.Mdia.Minf.Stbl == nil || trak.Mdia.Minf.Stbl.Stsd == nil {
 		return fmt.Errorf("no mdia, minf, stbl, or stsd box not found in track")
+	}
+	if trak.Mdia.Mdhd == nil || len(trak.Mdia.Minf.Stbl.Stsd.Children) == 0 {
+		return fmt.Errorf("no mdhd box or no sample entry found in track")
 	}
 	r.timeScaleIn = trak.Mdia.Mdhd.Timescale
 	r.timeScaleOut = r.timeScaleIn
